@@ -3,6 +3,7 @@ Require Import MV.Base.Prelude MV.Base.CInt MV.Base.Index MV.Base.BorderSpec.
 Require Import MV.Gen.Scalar_gen MV.Model.Filter MV.Model.Morph MV.Model.Convolve.
 Require Import MV.Proof.Border MV.Proof.ConvProof MV.Proof.SafetyProof MV.Proof.MorphProof.
 Require Import MV.Model.MorphFast MV.Gen.FastPath_gen MV.Proof.MorphFastProof MV.Proof.FastPathTie.
+Require Import MV.Model.Distance MV.Proof.DistanceProof MV.Proof.EnvelopeProof MV.Proof.DistanceExact.
 
 (* every index produced by the border function is inside [0,len), or is the explicit flag which the
    kernels test for (constant / ignore mode, coordinate really outside) *)
@@ -60,3 +61,10 @@ Qed.
 Theorem C10_fast_path_cells_in_bounds : forall is_er Ny Nx pos t s, 1 <= Ny -> 1 <= Nx ->
   In (t, s) (gen_fb_updates is_er Ny Nx pos) -> 0 <= t < Ny * Nx /\ 0 <= s < Ny * Nx.
 Proof. intros is_er Ny Nx pos t s H1 H2. rewrite gen_updates_are_model_updates. now apply fb_updates_in_bounds. Qed.
+
+(* the parabola stack of the distance transform (v[0..n-1] and z[0..n], allocated once per call for the longest axis): after the
+   first pass of any line it holds at most n entries and every stored vertex is an index of the line -- so v[k], z[k], z[k+1] and
+   f[v[k]] stay inside their arrays *)
+Theorem C10_distance_stack_in_bounds : forall f, (1 <= length f)%nat ->
+  Z.of_nat (length (build_hull f)) <= Zlen f /\ forall e, In e (build_hull f) -> 0 <= fst e < Zlen f.
+Proof. exact envelope_stack_in_bounds. Qed.
